@@ -10,6 +10,7 @@ import (
 	"io/ioutil"
 	"net/http"
 	"net/url"
+	"strings"
 
 	vrt "github.com/emersion/go-webdav/internal/zz_verifrt"
 )
@@ -443,4 +444,98 @@ func verifStatusOverWire(s *Status) (*Status, error) {
 		return nil, err
 	}
 	return &out, nil
+}
+
+// ---------------------------------------------------------------------------
+// wire schema conformance: the side condition of the identity wire
+//
+// The identity wire hands Go values from one side to the other, so a change
+// that client and server of this repository share (an element renamed, put
+// into another namespace, written in another place) is invisible to it. The
+// schema each wire struct maps to under encoding/xml (vrt.XMLShape: computed
+// from the struct tags of the current source) is therefore compared with the
+// RFC's definition of the element, written down here independently.
+
+type VerifShapeSpec struct {
+	Path  string // element path, names as "P:local" with P a key of the namespace table
+	Items string // attributes and children the RFC defines (blank separated, any order)
+	Order string // blank separated chains "a<b<c": the DTD puts these children in sequence
+}
+
+func verifExpandName(ns map[string]string, n string) string {
+	// "@name" -> "@{}name", "C:filter*" -> "{urn:...}filter*"
+	if strings.HasPrefix(n, "#") {
+		return n
+	}
+	at := ""
+	if strings.HasPrefix(n, "@") {
+		at, n = "@", n[1:]
+	}
+	if k := strings.Index(n, ":"); k >= 0 {
+		if full, ok := ns[n[:k]]; ok {
+			return at + "{" + full + "}" + n[k+1:]
+		}
+	}
+	return at + "{}" + n
+}
+
+func verifStripOcc(item string) string {
+	return strings.TrimRight(item, "?*^")
+}
+
+// VerifCheckShape asserts that shape (vrt.XMLShape of a wire struct) is the
+// schema described by specs.
+func VerifCheckShape(shape string, ns map[string]string, specs []VerifShapeSpec, what string) {
+	lines := map[string][]string{}
+	var paths []string
+	for _, l := range strings.Split(shape, "\n") {
+		k := strings.Index(l, " := ")
+		if k < 0 {
+			vrt.Fail(what + ": wire struct has no XML mapping: " + l)
+			continue
+		}
+		items := strings.Fields(l[k+4:])
+		lines[l[:k]] = items
+		paths = append(paths, l[:k])
+	}
+	known := map[string]bool{}
+	for _, sp := range specs {
+		var segs []string
+		for _, s := range strings.Split(sp.Path, "/") {
+			segs = append(segs, verifExpandName(ns, s))
+		}
+		path := strings.Join(segs, "/")
+		known[path] = true
+		got, ok := lines[path]
+		vrt.Assert(ok, what+": element "+sp.Path+" is part of the wire format")
+		if !ok {
+			continue
+		}
+		want := map[string]bool{}
+		for _, it := range strings.Fields(sp.Items) {
+			want[verifExpandName(ns, it)] = true
+		}
+		same := len(got) == len(want)
+		for _, g := range got {
+			if !want[g] {
+				same = false
+			}
+		}
+		vrt.Assert(same, what+": element "+sp.Path+" has exactly the attributes and children the RFC defines, in the right namespaces: "+strings.Join(got, " "))
+		for _, chain := range strings.Fields(sp.Order) {
+			last := -1
+			for _, n := range strings.Split(chain, "<") {
+				full := verifExpandName(ns, n)
+				for i, g := range got {
+					if verifStripOcc(g) == full {
+						vrt.Assert(i > last, what+": children of "+sp.Path+" are written in the order of the RFC's DTD ("+chain+")")
+						last = i
+					}
+				}
+			}
+		}
+	}
+	for _, p := range paths {
+		vrt.Assert(known[p], what+": element "+p+" is defined by the RFC")
+	}
 }
